@@ -1,5 +1,6 @@
 PROP = {
-    "groups": ["resume"],
+    "shared_groups": "also runs the neighbouring groups whose code can break this property: e2e-fidelity (described under C01); dupnames (described under C09)",
+    "groups": ["resume", "e2e-fidelity", "dupnames"],
     "timeout": 900,
     "nontrivial_floor": 0.3,
     "rule": "end-to-end overwrite (-y) transfers, real client (trzsz.NewTrzszFilter, in-process) against the real trz/tsz "
